@@ -2,11 +2,19 @@
 use crate::report::Report;
 use crate::Ctx;
 
+pub mod c13;
 pub mod c14;
+pub mod c17;
+pub mod c18;
+pub mod c19;
 
 pub fn run(id: &str, ctx: &Ctx) -> Option<Report> {
     Some(match id {
+        "C13" => c13::run(ctx),
         "C14" => c14::run(ctx),
+        "C17" => c17::run(ctx),
+        "C18" => c18::run(ctx),
+        "C19" => c19::run(ctx),
         _ => return None,
     })
 }
